@@ -20,7 +20,7 @@ LEVEL_TEXT = ('static analysis: (D1) every exclude file is subtracted through su
               'chromosomes; a minimum of None counts as 0; (D2b) get_regions interpreted on 275 literal FASTA texts -- every sequence over {A, N}'
               ' up to 6 bases at line widths 1-4 and unbroken, plus two- and three-record files with empty, all-N and description-bearing records'
               ' -- reports exactly the maximal non-N runs of each record; (D3) do_access runs scan -> (contig filter iff skip_noncanonical) -> '
-              'subtract each exclude file in order -> join with the given minimum gap, and the contig filter keeps exactly the names the '
+              'subtract each exclude file, whole, in order -> join with the given minimum gap, and the contig filter keeps exactly the names the '
               "package's contig rule calls canonical; (D4) in the FASTA scanner the run-start / cursor positions are only ever tested with `is "
               'None` / `is not None`, never for truth (a run starting at offset 0 is a run). Does not decide the line scanner beyond that scope '
               '(longer lines, lower-case or other IUPAC letters) nor the contents of the contig-name pattern beyond the kinds the property names '
